@@ -1,5 +1,7 @@
 import Driver.Proto
 import GoMailModel.Mime.Exec
+import GoMailModel.Eml.View
+import Driver.EmlOps
 /-
   `msg` protocol line: a sequence of builder / render / query operations applied to one Msg.
   Builder ops change the state silently, render and query ops append tokens to the reply.
@@ -75,6 +77,24 @@ partial def run (st : St) : List String → St
       let upd (l : List FileM) : List FileM := l.mapIdx (fun j f => if j == i then { f with prod := { content := c, fails := false } } else f)
       run { st with s := if a != 0 then { st.s with attachments := upd st.s.attachments } else { st.s with embeds := upd st.s.embeds } } rest
     | _, _, _ => { st with bad := true }
+  | "isview" :: rest =>
+    -- isview ENT : does the standard library's view of the real rendering match the entity tree of the
+    -- model state (Eml.matchTop), and does the EML body logic store what Eml.effects says for it?
+    match EmlOps.parseEnt rest with
+    | some (v, []) =>
+      match Eml.xtreeOf st.s with
+      | none => emit st "unsupported"
+      | some x =>
+        if !Eml.okTop x then emit st "unsupported"
+        else
+          let m := Eml.matchTop x v
+          let exp := Eml.effects x
+          let r := match Eml.parseBody v { charset := sb "UTF-8", enc := Eml.eQP } with
+            | .ok got => got.parts == (match x with | .part p => [{ Eml.storedPart p with charset := p.charset }] | _ => exp.parts)
+                         && got.atts == exp.atts && got.embeds == exp.embeds
+            | .error _ => false
+          emit st (encBool m ++ " " ++ encBool r)
+    | _ => { st with bad := true }
   | "nest" :: rest =>
     run (emit st (encBool (hasMixed st.s) ++ " " ++ encBool (hasRelated st.s) ++ " " ++ encBool (hasAlt st.s))) rest
   | "signed" :: rest =>
